@@ -402,7 +402,13 @@ func Build(p Payload, cfg Cfg) Built {
 		val = reflect.Zero(structType(p.Root)).Interface()
 	case TPStruct:
 		ptr := reflect.New(structType(p.Root))
-		b.fill(p.Root, ptr.Elem(), sub(root, "", "ptr"))
+		pc := sub(root, "", "ptr")
+		if b.ignored[ptr.Type()] {
+			// reflect.StructOf gives structurally equal shapes the same type: the payload's own type can
+			// coincide with a type listed in IgnoreTypes, and such a payload is passed through untouched
+			pc.ign = true
+		}
+		b.fill(p.Root, ptr.Elem(), pc)
 		val = ptr.Interface()
 	case TTMaps, TPTMaps, TTStruct:
 		val = b.build(p.Root, root).Interface()
